@@ -161,6 +161,22 @@ contract(
     modifies=["self.db[bucket][]", "alloc"], writes_fresh=["*"], raises=[],
 )
 
+# insert_one of an event that carries an id is an upsert: every stored event with that id becomes a fresh copy of the caller's event
+# (the contract of replace, which it calls), and the caller gets its own event back
+contract(
+    M_ + ".insert_one:existing",
+    params={"self": "MemoryStorage", "bucket": "str", "event": "Event"},
+    returns="Event",
+    requires=["bucket in self.db", "mem_inv(self)", "allocated(event) and allocated(event.data)", "event.id is not None"],
+    ghost_vars={"E0": ("Event", "event")},
+    ensures=[
+        "result is E0",
+        "self.db[bucket] is old(self.db[bucket]) and len(self.db[bucket]) == old(len(self.db[bucket]))",
+        REPLACED.replace("bucket_id", "bucket").replace("event_id", "E0.id").format(LO="0"), E0_SAME, "mem_inv(self)",
+    ],
+    modifies=["self.db[bucket][]", "alloc"], writes_fresh=["*"], raises=[],
+)
+
 # -- reads ---------------------------------------------------------------------------------------------------------------------------
 @spec
 def in_win(e, starttime, endtime):
@@ -277,6 +293,33 @@ contract(
 )
 
 # -- buckets ---------------------------------------------------------------------------------------------------------------------------
+@spec
+def keys_agree(self):
+    """every bucket that has an event list has a metadata entry (what `buckets()` relies on when it describes each of them)"""
+    return all(b in self._metadata for b in self.db)
+
+
+contract(
+    M_ + ".buckets",
+    params={"self": "MemoryStorage"}, returns="Dict[str,Dict[str,JV]]",
+    locals={"buckets": "Dict[str,Dict[str,JV]]"},
+    requires=["mem_inv(self)", "keys_agree(self)"],
+    ensures=[
+        # the listing: exactly the buckets that exist, each described by a copy of its metadata (the caller cannot reach the stored entry)
+        "fresh(result) and all(b in result for b in self.db) and all(b in self.db for b in result)",
+        "all(fresh(result[b]) and result[b] is not self._metadata[b] and result[b] == self._metadata[b] for b in self.db)",
+        "all(self._metadata[b] is old(self._metadata[b]) and self._metadata[b] == old(self._metadata[b]) for b in old(self._metadata))",
+    ],
+    modifies=["alloc"], writes_fresh=["*"], raises=[],
+    loops={0: dict(index="kidx", invariant=[
+        "fresh(buckets)",
+        "all(key_index(self.db, b) >= kidx or b in buckets for b in self.db) and all(b in self.db and key_index(self.db, b) < kidx for b in buckets)",
+        "all(key_index(self.db, b) >= kidx or (fresh(buckets[b]) and allocated(buckets[b]) and buckets[b] is not self._metadata[b]"
+        "    and buckets[b] == self._metadata[b]) for b in self.db)",
+        "all(self._metadata[b] is old(self._metadata[b]) and self._metadata[b] == old(self._metadata[b]) for b in old(self._metadata))",
+    ])},
+)
+
 contract(
     M_ + ".create_bucket",
     params={"self": "MemoryStorage", "bucket_id": "str", "type_id": "str", "client": "str", "hostname": "str", "created": "str",
@@ -292,7 +335,7 @@ contract(
         "all(b == bucket_id or (b in self.db and self.db[b] is old(self.db[b])) for b in old(self.db))",
         "all(b == bucket_id or b in old(self.db) for b in self.db)",
         "all(b == bucket_id or (b in self._metadata and self._metadata[b] is old(self._metadata[b])) for b in old(self._metadata))",
-        "mem_inv(self)",
+        "mem_inv(self)", "not old(keys_agree(self)) or keys_agree(self)",
     ],
     modifies=["self.db[]", "self._metadata[]", "alloc"], writes_fresh=["List.len", "List.items", "Dict.map:JV"], raises=[],
 )
@@ -305,6 +348,7 @@ contract(
         "all(b == bucket_id or (b in self.db and self.db[b] is old(self.db[b])) for b in old(self.db))",
         "all(b in old(self.db) for b in self.db)",
         "all(b == bucket_id or (b in self._metadata and self._metadata[b] is old(self._metadata[b])) for b in old(self._metadata))",
+        "not old(keys_agree(self)) or keys_agree(self)",
     ],
     exc_ensures={"ValueError": ["not old(bucket_id in self._metadata)", "all(b in self._metadata and self._metadata[b] is old(self._metadata[b]) for b in old(self._metadata))",
                                 "all(b == bucket_id or (b in self.db and self.db[b] is old(self.db[b])) for b in old(self.db))"]},
